@@ -93,6 +93,8 @@ int main(int argc, char **argv) {
     std::vector<Pattern> ps; for (uint64_t k=0;k<16;++k) ps.push_back(hx::mask_pattern(2,2,k,false)); for (int k=0;k<(T?60:16);++k) ps.push_back(hx::mask_pattern(3,3,rng.next()%512,false)); ps.push_back(hx::band_pattern(4,1));
     for (auto &p : ps) { tuple_case<int,int>(p,"int-int"); tuple_case<long,int>(p,"long-int"); tuple_case<unsigned,unsigned>(p,"unsigned-unsigned"); tuple_case<size_t,size_t>(p,"size_t-size_t"); tuple_case<ptrdiff_t,long>(p,"ptrdiff_t-long"); zero_copy_case(p); builder_case(p); }
     std::vector<Pattern> sq; for (int n=2;n<=3;++n) { uint64_t lim=1ull<<(n*n); for (uint64_t mask=0;mask<lim;++mask) { bool canon=true; for (int i=0;i<n;++i) if ((mask>>(i*n+i))&1) canon=false; if (canon && (n<3 || T || rng.below(6)==0)) sq.push_back(hx::mask_pattern(n,n,mask,true)); } } sq.push_back(hx::band_pattern(4,1)); sq.push_back(hx::arrow_pattern(4));
+    // disconnected graphs whose decoupled (Dirichlet-like) rows have the LOWEST indices: the component search of Cuthill-McKee has to go back to index 0
+    sq.push_back(hx::mask_pattern(3,3,(1ull<<5)|(1ull<<7),true)); sq.push_back(hx::mask_pattern(4,4,(1ull<<11)|(1ull<<14),true)); sq.push_back(hx::mask_pattern(5,5,(1ull<<13)|(1ull<<17)|(1ull<<19)|(1ull<<23),true)); sq.push_back(hx::mask_pattern(4,4,(1ull<<6)|(1ull<<9)|(1ull<<11)|(1ull<<14),true)); sq.push_back(hx::mask_pattern(4,4,(1ull<<7)|(1ull<<13),true)); sq.push_back(hx::mask_pattern(5,5,(1ull<<9)|(1ull<<21),true)); sq.push_back(hx::mask_pattern(5,5,(1ull<<9)|(1ull<<21)|(1ull<<13)|(1ull<<17),true));   /* components {1,3} resp. {1,4}: the node left over (2) lies BELOW the number of nodes already placed */
     for (auto &p : sq) { reorder_case(p); scaled_case(p); }
     typedef amgcl::amg<BE,amgcl::coarsening::smoothed_aggregation,amgcl::relaxation::spai0> A1; typedef amgcl::amg<BE,amgcl::coarsening::ruge_stuben,amgcl::relaxation::gauss_seidel> A2; typedef amgcl::amg<BE,amgcl::coarsening::aggregation,amgcl::relaxation::ilu0> A3;
     typedef amgcl::relaxation::as_preconditioner<BE,amgcl::relaxation::ilu0> R1; typedef amgcl::relaxation::as_preconditioner<BE,amgcl::relaxation::gauss_seidel> R2; typedef amgcl::preconditioner::dummy<BE> D1;
